@@ -9,14 +9,14 @@ import (
 
 // Explorer is the deviation-bounded DFS over the choice tree of one closed system (harness + config).
 type Explorer struct {
-	Name      string
-	Body      func()       // harness body, runs as managed thread 0
-	Reset     func()       // optional: reset package-level state of the code under test between executions
-	Bounds    []int        // deviation bounds to run in order; -1 = unbounded
-	Prune     bool         // state-key pruning (Mazurkiewicz-history keys)
-	Horizon   int          // max scheduling steps per execution (livelock detector)
-	EnvBudget int          // max environment events (timer fires, disconnects) per execution
-	Deadline  time.Time    // zero = none
+	Name         string
+	Body         func()    // harness body, runs as managed thread 0
+	Reset        func()    // optional: reset package-level state of the code under test between executions
+	Bounds       []int     // deviation bounds to run in order; -1 = unbounded
+	Prune        bool      // state-key pruning (Mazurkiewicz-history keys)
+	Horizon      int       // max scheduling steps per execution (livelock detector)
+	EnvBudget    int       // max environment events (timer fires, disconnects) per execution
+	Deadline     time.Time // zero = none
 	MaxFailExecs int       // stop exploring after this many failing executions (0 = 25)
 	ReplayEvery  int       // replay every n-th execution to prove determinism (0 = 100)
 	// NoPolling asserts that no select-with-default ever involves an unbuffered model channel (checked at
@@ -44,22 +44,22 @@ type FailRec struct {
 
 // Result summarises the exploration of one closed system.
 type Result struct {
-	Name           string         `json:"name"`
-	Executions     int64          `json:"executions"`
-	NovelExecs     int64          `json:"novel_executions"` // executions that reached at least one state not seen before
-	States         int64          `json:"states"`
-	Transitions    int64          `json:"transitions"`
-	BoundCompleted string         `json:"bound_completed"` // "none", "0", "1", …, "unbounded"
-	PerBound       []BoundRec     `json:"per_bound"`
-	Exhaustive     bool           `json:"exhaustive"`
+	Name           string           `json:"name"`
+	Executions     int64            `json:"executions"`
+	NovelExecs     int64            `json:"novel_executions"` // executions that reached at least one state not seen before
+	States         int64            `json:"states"`
+	Transitions    int64            `json:"transitions"`
+	BoundCompleted string           `json:"bound_completed"` // "none", "0", "1", …, "unbounded"
+	PerBound       []BoundRec       `json:"per_bound"`
+	Exhaustive     bool             `json:"exhaustive"`
 	Outcomes       map[string]int64 `json:"outcomes"`
-	Fails          []FailRec      `json:"fails"`
+	Fails          []FailRec        `json:"fails"`
 	FailCounts     map[string]int64 `json:"fail_counts"`
-	Samples        [][]int        `json:"samples"`
-	ReplaysChecked int64          `json:"replays_checked"`
-	MaxDepth       int            `json:"max_depth"`
-	MaxThreads     int            `json:"max_threads"`
-	WallMS         int64          `json:"wall_ms"`
+	Samples        [][]int          `json:"samples"`
+	ReplaysChecked int64            `json:"replays_checked"`
+	MaxDepth       int              `json:"max_depth"`
+	MaxThreads     int              `json:"max_threads"`
+	WallMS         int64            `json:"wall_ms"`
 }
 
 type BoundRec struct {
